@@ -64,7 +64,7 @@ class SpiSpec(Spec):
         self.max_words = cfg.get("max_words", 3)
         # CS aborts leave arbitrary shifted garbage in the receive shift register; the closure over *repeated* aborts
         # is ~2^word_size states, so for wide words the number of mid-word aborts per history is bounded instead.
-        if tier == "quick": dflt = -1 if ws <= 6 else (2 if ws <= 8 else 1)
+        if tier == "quick": dflt = -1 if ws <= 6 else 1
         else: dflt = -1 if ws <= 8 else (2 if ws <= 12 else 1)
         self.abort_budget = cfg.get("aborts", dflt)       # -1 = unlimited
         mask = (1 << ws) - 1
@@ -111,7 +111,7 @@ class SpiSpec(Spec):
         return acts
 
     def assumptions(self):
-        return ["mid-word CS aborts per history (bound): quick unlimited for word sizes <= 6, two for 7-8, one beyond; thorough unlimited <= 8, two <= 12, one beyond",
+        return ["mid-word CS aborts per history (bound): quick unlimited for word sizes <= 6, one beyond; thorough unlimited <= 8, two <= 12, one beyond",
                 "SPI master in the device's configured mode; SCK half-period 2 or 3 system cycles; SCK idle whenever CS changes",
                 "CS set-up (CS active to first SCK edge) >= h cycles, CS hold >= h cycles, CS inactive gap = 3 cycles",
                 "SDI valid at least one system cycle either side of the sample edge ('narrow' configs drive the complement elsewhere)",
